@@ -303,7 +303,7 @@ theorem spec_wasm_count : Spec.wasmExpected.length = 20 ∧ (Spec.wasmExpected.f
 
 /-! ## pinned sizes and spot entries (an extractor that silently returns nothing fails here) -/
 
-theorem table_sizes : handlers.length = 70 ∧ wasmHandlers.length = 20 ∧ sweeps.length = 7 ∧ wasmAddrLists.length = 2 := by decide +kernel
+theorem table_sizes : handlers.length = 70 ∧ wasmHandlers.length = 20 ∧ sweeps.length = 10 ∧ wasmAddrLists.length = 2 := by decide +kernel
 
 theorem every_handler_has_exit : ∀ h ∈ handlers, hasExit h = true := by decide +kernel
 
